@@ -115,30 +115,37 @@ def timeField (v : Option (List Char)) : Outcome Nat :=
   | none => .ok 0
   | some r => parseTime r
 
-/-- `Duration.UnmarshalText` on non-nil text (nil text gives 0 and is handled by the caller) -/
-def parse (text : List Char) : Outcome Int :=
-  let (neg, s0) := match text with
-    | '-' :: r => (true, r)
-    | r => (false, r)
-  match s0 with
-  | 'P' :: s1 =>
-    let (y, s2) := optField 'Y' s1
-    let (mo, s3) := optField 'M' s2
-    let (d, s4) := optField 'D' s3
-    let tpart : Option (List Char) × Bool := match s4 with
-      | [] => (none, true)
-      | 'T' :: r => (if r = [] ∨ r.contains '\n' then (none, false) else (some r, true))
-      | _ => (none, false)
-    if !tpart.2 then .err "syntax"
-    else if y.isNone ∧ mo.isNone ∧ d.isNone ∧ tpart.1.isNone then .err "empty"
-    else
-      (field y yearNs).bind fun yn =>
-      (field mo monthNs).bind fun mn =>
-      (field d dayNs).bind fun dn =>
-      (timeField tpart.1).bind fun tn =>
-      let total : Int := (yn + mn + dn + tn : Nat)
-      .ok (wrap64 (if neg then -total else total))
+/-- `(?:T(.+))?$` after the date fields: (time text if any, whether the tail is acceptable) -/
+def tPart (s4 : List Char) : Option (List Char) × Bool :=
+  match s4 with
+  | [] => (none, true)
+  | 'T' :: r => if r = [] ∨ r.contains '\n' then (none, false) else (some r, true)
+  | _ => (none, false)
+
+/-- everything after the `P` -/
+def parseP (neg : Bool) (s1 : List Char) : Outcome Int :=
+  let yf := optField 'Y' s1
+  let mf := optField 'M' yf.2
+  let df := optField 'D' mf.2
+  let tp := tPart df.2
+  if !tp.2 then .err "syntax"
+  else if yf.1.isNone ∧ mf.1.isNone ∧ df.1.isNone ∧ tp.1.isNone then .err "empty"
+  else
+    (field yf.1 yearNs).bind fun yn =>
+    (field mf.1 monthNs).bind fun mn =>
+    (field df.1 dayNs).bind fun dn =>
+    (timeField tp.1).bind fun tn =>
+    let total : Int := (yn + mn + dn + tn : Nat)
+    .ok (wrap64 (if neg then -total else total))
+
+def parseBody (neg : Bool) : List Char → Outcome Int
+  | 'P' :: s1 => parseP neg s1
   | _ => .err "syntax"
+
+/-- `Duration.UnmarshalText` on non-nil text (nil text gives 0 and is handled by the caller) -/
+def parse : List Char → Outcome Int
+  | '-' :: r => parseBody true r
+  | r => parseBody false r
 
 /-- `UnmarshalText(MarshalText(d))`: zero marshals to nil, and nil unmarshals to zero -/
 def roundTrip (d : Int) : Outcome Int :=
